@@ -54,8 +54,11 @@ def main():
     else:
         projects = []
         for k in range(nproj):
-            opts = {"multifile": True, "multipkg": True, "security": True, "params": True}
+            opts = {"multifile": True, "multipkg": True, "security": True, "params": True, "enums": True,
+                    "local_types": True}
             p = P.gen_project(rng, opts)
+            # several controllers per file in half of the projects
+            p["shared_files"] = (k % 2 == 0)
             if k % 4 == 3:
                 # a rejected project: analysis of it must be idempotent too (diagnostics stable)
                 c = rng.choice(p["controllers"])
